@@ -686,3 +686,102 @@ def report(ctx, known, what, case, detail=None, keep=3):
                 return
             break
     ctx.violation(what, case, detail)
+
+
+# ------------------------------------------------------------------ VTIMEZONEs with finite rules (seed C04G)
+
+VTZ_MULTI_ERA = """BEGIN:VCALENDAR
+BEGIN:VTIMEZONE
+TZID:Eastern-eras
+BEGIN:DAYLIGHT
+DTSTART:19870405T020000
+RRULE:FREQ=YEARLY;BYMONTH=4;BYDAY=1SU;UNTIL=20060402T070000Z
+TZOFFSETFROM:-0500
+TZOFFSETTO:-0400
+TZNAME:EDT
+END:DAYLIGHT
+BEGIN:STANDARD
+DTSTART:19871025T020000
+RRULE:FREQ=YEARLY;BYMONTH=10;BYDAY=-1SU;UNTIL=20061029T060000Z
+TZOFFSETFROM:-0400
+TZOFFSETTO:-0500
+TZNAME:EST
+END:STANDARD
+BEGIN:DAYLIGHT
+DTSTART:20070311T020000
+RRULE:FREQ=YEARLY;BYMONTH=3;BYDAY=2SU
+TZOFFSETFROM:-0500
+TZOFFSETTO:-0400
+TZNAME:EDT
+END:DAYLIGHT
+BEGIN:STANDARD
+DTSTART:20071104T020000
+RRULE:FREQ=YEARLY;BYMONTH=11;BYDAY=1SU
+TZOFFSETFROM:-0400
+TZOFFSETTO:-0500
+TZNAME:EST
+END:STANDARD
+END:VTIMEZONE
+END:VCALENDAR
+"""
+
+VTZ_RDATE = """BEGIN:VCALENDAR
+BEGIN:VTIMEZONE
+TZID:Rdate-only
+BEGIN:STANDARD
+DTSTART:20001029T020000
+RDATE:20011028T020000,20021027T020000,20031026T020000,20041031T020000
+TZOFFSETFROM:-0400
+TZOFFSETTO:-0500
+TZNAME:EST
+END:STANDARD
+BEGIN:DAYLIGHT
+DTSTART:20010401T020000
+RDATE:20020407T020000,20030406T020000,20040404T020000
+TZOFFSETFROM:-0500
+TZOFFSETTO:-0400
+TZNAME:EDT
+END:DAYLIGHT
+END:VTIMEZONE
+END:VCALENDAR
+"""
+
+VTZ_COUNT = """BEGIN:VCALENDAR
+BEGIN:VTIMEZONE
+TZID:Count-limited
+BEGIN:STANDARD
+DTSTART:20001029T030000
+RRULE:FREQ=YEARLY;BYMONTH=10;BYDAY=-1SU;COUNT=6
+TZOFFSETFROM:+0200
+TZOFFSETTO:+0100
+TZNAME:CET
+END:STANDARD
+BEGIN:DAYLIGHT
+DTSTART:20010325T020000
+RRULE:FREQ=YEARLY;BYMONTH=3;BYDAY=-1SU;COUNT=5
+TZOFFSETFROM:+0100
+TZOFFSETTO:+0200
+TZNAME:CEST
+END:DAYLIGHT
+END:VTIMEZONE
+END:VCALENDAR
+"""
+
+FINITE_VTZS = [("multi-era", VTZ_MULTI_ERA), ("rdate", VTZ_RDATE), ("count", VTZ_COUNT)]
+
+
+def load_vtz(text):
+    from dateutil import tz
+    with warnings.catch_warnings():
+        warnings.simplefilter("ignore")
+        return tz.tzical(io.StringIO(text)).get()
+
+
+def vtz_onsets_utc(z, lo=1999, hi=2012):
+    """UTC seconds of every onset of every component between the years lo..hi"""
+    out = set()
+    for comp in z._comps:
+        start = datetime.datetime(lo, 1, 1); end = datetime.datetime(hi, 1, 1)
+        for on in comp.rrule.between(start, end, inc=True):
+            out.add(ts(on) - int(comp.tzoffsetfrom.total_seconds()))
+    return sorted(out)
